@@ -7,7 +7,8 @@ from core.rng import SemanticRandom, installed
 
 
 # members are arbitrary hashables: pairs of ints, but also None, strings, numbers, the empty tuple (coded [-1, j] in a case)
-SPECIAL = [None, "x", 0, (), frozenset(), False, ""]
+NAN = float("nan")       # one object: a member of a plain set too (found by identity), although it is not equal to itself
+SPECIAL = [None, "x", 0, (), frozenset(), False, "", NAN]
 
 
 def D(e):
@@ -17,7 +18,7 @@ def D(e):
 
 def E(x):
     for j, sp in enumerate(SPECIAL):
-        if type(x) is type(sp) and x == sp:
+        if x is sp or (type(x) is type(sp) and x == sp):
             return (-1, j)
     return tuple(x)
 
@@ -26,7 +27,7 @@ class C20(Prop):
     pid = "C20"
     case_limit = 20          # a history takes milliseconds; a draw that never returns is cut off after this many seconds
     title = "DrawSet behaves as a set under any history"
-    rule = ("random operation sequences (add/remove/draw/contains/len/iter) over universes of 1-8 integer pairs (every fifth case also None, '', 'x', 0, False, (), frozenset() as members) (every sixtieth case: a set of 258-300 members built first), "
+    rule = ("random operation sequences (add/remove/draw/contains/len/iter) over universes of 1-8 integer pairs (every fifth case also None, '', 'x', 0, False, (), frozenset(), a NaN object as members) (every sixtieth case: a set of 258-300 members built first), "
             "plus every sequence of <= L add/remove operations over a 3-element universe (L=4 quick, 6 thorough); "
             "a case is non-trivial when it performs at least one removal of a present element that is not the last "
             "list slot (the swap-with-last path) or an absent removal; distinct = distinct operation sequence")
